@@ -13,12 +13,13 @@ import (
 
 // Lit is a branch condition in canonical form: polarity + expression text.
 // Canonicalisation removes syntactic variation that does not change meaning:
-//   !x                 -> flip x
-//   x != y             -> flip (x == y)
-//   nil == x           -> x == nil
-//   a > b              -> b < a ;  a >= b -> flip (a < b) ; a <= b -> flip (b < a)
-//   len(x) ⋈ const     -> len(x)>=k with polarity
-//   x == true/false    -> x / flip x
+//
+//	!x                 -> flip x
+//	x != y             -> flip (x == y)
+//	nil == x           -> x == nil
+//	a > b              -> b < a ;  a >= b -> flip (a < b) ; a <= b -> flip (b < a)
+//	len(x) ⋈ const     -> len(x)>=k with polarity
+//	x == true/false    -> x / flip x
 type Lit struct {
 	Pol  bool
 	Expr string
